@@ -9,6 +9,7 @@ import (
 	"strconv"
 	"strings"
 	"sync"
+	"sync/atomic"
 	"time"
 
 	"git.metabarcoding.org/obitools/obitools4/obitools4/pkg/obiiter"
@@ -124,6 +125,229 @@ func c03Work(sl obiseq.BioSequenceSlice) (obiseq.BioSequenceSlice, error) {
 	return out, nil
 }
 
+
+// ---- worker-stage ops (record-to-slice adapters of obiseq/worker.go behind MakeIWorker,
+// MakeIConditionalWorker, ChainWorkers) ----
+
+// c03WSpec is the per-record worker described on the case line by "K,M,E": record id fails when
+// E > 0 and id%E == E-1; else it yields n records id*100+j (j < n), n = K (mode c) or
+// (id*7+K)%(K+1) (mode m).
+type c03WSpec struct {
+	k       int
+	varying bool
+	e       int
+}
+
+func c03ParseWSpec(s string) (c03WSpec, bool) {
+	p := strings.Split(s, ",")
+	if len(p) != 3 || (p[1] != "c" && p[1] != "m") {
+		return c03WSpec{}, false
+	}
+	k, err1 := strconv.Atoi(p[0])
+	e, err2 := strconv.Atoi(p[2])
+	if err1 != nil || err2 != nil || k < 0 || e < 0 {
+		return c03WSpec{}, false
+	}
+	return c03WSpec{k, p[1] == "m", e}, true
+}
+
+// fan-out of one record; -1 = the worker fails
+func (w c03WSpec) fan(id int) int {
+	if w.e > 0 && id%w.e == w.e-1 {
+		return -1
+	}
+	if w.varying {
+		return (id*7 + w.k) % (w.k + 1)
+	}
+	return w.k
+}
+
+func (w c03WSpec) worker() obiseq.SeqWorker {
+	return func(s *obiseq.BioSequence) (obiseq.BioSequenceSlice, error) {
+		id := c03Id(s)
+		n := w.fan(id)
+		if n < 0 {
+			return nil, fmt.Errorf("record %d refused", id)
+		}
+		res := obiseq.MakeBioSequenceSlice()
+		for j := 0; j < n; j++ {
+			res = append(res, c03Seq(id*100+j))
+		}
+		return res, nil
+	}
+}
+
+// naive reference of a chain of per-record workers on a list of ids, independent of the code under
+// test: (ids kept in order, a record of the FIRST stage failed). A failure in a later stage of a chain
+// only skips that intermediate record (SeqToSliceWorker(next, false) inside ChainWorkers).
+func c03RefWorkers(specs []c03WSpec, ids []int) (out []int, failed bool) {
+	cur := ids
+	for st, w := range specs {
+		var next []int
+		for _, id := range cur {
+			n := w.fan(id)
+			if n < 0 {
+				if st == 0 {
+					failed = true
+				}
+				continue
+			}
+			for j := 0; j < n; j++ {
+				next = append(next, id*100+j)
+			}
+		}
+		cur = next
+	}
+	return cur, failed
+}
+
+func c03FlagArg(pre, s string) int {
+	if !strings.HasPrefix(s, pre) {
+		return -1
+	}
+	n, err := strconv.Atoi(s[len(pre):])
+	if err != nil {
+		return -1
+	}
+	return n
+}
+
+func c03SortByOrder(out []c03Batch) {
+	sort.SliceStable(out, func(i, j int) bool { return out[i].order < out[j].order })
+}
+
+
+// ---- fragments: sequences of length 1+(id*7)%40; a fragment <id>_sub[a+1..b] is record id*10000+a*100+b ----
+
+func c03FragLen(id int) int { return 1 + (id*7)%40 }
+
+func c03FragSeq(id int) *obiseq.BioSequence {
+	b := make([]byte, c03FragLen(id))
+	for i := range b {
+		b[i] = "acgt"[(i+id)%4]
+	}
+	return obiseq.NewBioSequence("r"+strconv.Itoa(id), b, "")
+}
+
+func c03FragId(s *obiseq.BioSequence) int {
+	id := s.Id()
+	k := strings.Index(id, "_sub[")
+	if k < 0 {
+		n, _ := strconv.Atoi(id[1:])
+		return n
+	}
+	base, _ := strconv.Atoi(id[1:k])
+	var a, b int
+	fmt.Sscanf(id[k:], "_sub[%d..%d]", &a, &b)
+	return base*10000 + (a-1)*100 + b
+}
+
+// naive reference of the cut (independent formulation: window starts 0, step, 2*step, …; a window whose
+// remainder after it is shorter than step is extended to the end and is the last one)
+func c03RefFrag(id, minsize, length, overlap int) []int {
+	L := c03FragLen(id)
+	if L <= minsize {
+		return []int{id}
+	}
+	step := length - overlap
+	var out []int
+	for a := 0; a < L; a += step {
+		b := a + length
+		if b > L {
+			b = L
+		}
+		if L-b < step {
+			out = append(out, id*10000+a*100+L)
+			break
+		}
+		out = append(out, id*10000+a*100+b)
+	}
+	return out
+}
+
+func c03IterWith(bs []c03Batch, mk func(int) *obiseq.BioSequence) obiiter.IBioSequence {
+	it := obiiter.MakeIBioSequence()
+	it.Add(1)
+	go func() {
+		for _, b := range bs {
+			sl := obiseq.MakeBioSequenceSlice()
+			for _, id := range b.ids {
+				sl = append(sl, mk(id))
+			}
+			it.Push(obiiter.MakeBioSequenceBatch("src", b.order, sl))
+		}
+		it.Done()
+	}()
+	go it.WaitAndClose()
+	return it
+}
+
+func c03DrainWith(it obiiter.IBioSequence, id func(*obiseq.BioSequence) int) []c03Batch {
+	var out []c03Batch
+	for it.Next() {
+		b := it.Get()
+		cb := c03Batch{order: b.Order()}
+		for _, s := range b.Slice() {
+			cb.ids = append(cb.ids, id(s))
+		}
+		out = append(out, cb)
+	}
+	return out
+}
+
+// one stage of a "pipe" case applied to the real iterator + the reference on the flat record list
+func c03PipeStage(tok string, nw int, it obiiter.IBioSequence, flat []int) (obiiter.IBioSequence, []int, bool) {
+	p := strings.Split(tok, ":")
+	num := func(i int) int {
+		if i >= len(p) {
+			return -1
+		}
+		n, err := strconv.Atoi(p[i])
+		if err != nil {
+			return -1
+		}
+		return n
+	}
+	switch {
+	case p[0] == "sort" && len(p) == 1:
+		return it.SortBatches(), flat, true
+	case p[0] == "filterempty" && len(p) == 1:
+		return it.FilterEmpty(), flat, true
+	case p[0] == "limitmem" && len(p) == 1:
+		return it.LimitMemory(1.0), flat, true
+	case p[0] == "worker" && len(p) == 1:
+		var want []int
+		for _, id := range flat {
+			switch {
+			case id%5 == 0:
+			case id%7 == 0:
+				want = append(want, id, id+1000)
+			default:
+				want = append(want, id)
+			}
+		}
+		return it.MakeISliceWorker(c03Work, false, nw), want, true
+	case p[0] == "rebatch" && len(p) == 2 && num(1) > 0:
+		return it.Rebatch(num(1)), flat, true
+	case p[0] == "filteron" && len(p) == 2 && num(1) > 0:
+		var want []int
+		for _, id := range flat {
+			if id%3 == 0 {
+				want = append(want, id)
+			}
+		}
+		return it.FilterOn(c03Pred, num(1), nw), want, true
+	case p[0] == "iworker" && len(p) == 3:
+		sp, ok := c03ParseWSpec(p[1] + "," + p[2] + ",0")
+		if !ok {
+			return it, nil, false
+		}
+		want, _ := c03RefWorkers([]c03WSpec{sp}, flat)
+		return it.MakeIWorker(sp.worker(), false, nw), want, true
+	}
+	return it, nil, false
+}
+
 // random partition of ids first..first+n-1 into nb batches (sizes >= 0), Contract numbering 0..nb-1
 func c03Partition(rng *rand.Rand, first, n, nb int) []c03Batch {
 	bs := make([]c03Batch, nb)
@@ -168,6 +392,76 @@ func (c03) Gen(rng *rand.Rand, tier string, emit func(string)) {
 		"distribute 2 | 0:1,2,3,4,5,6,7,8,9", "batchover 2 | 0:1,2,3,4,5", "batchover 3 | ", "batchover 1 | 0:", "pairto 2 | 0:1,2,3 | 1:6 0:4,5", "pool | 0:1 1:2 | 0:3", "pool |  | ",
 	} {
 		emit(c)
+	}
+	// the remaining combinators, empty streams and empty batches through each of them
+	for _, c := range []string{
+		"frag 5 10 3 4 w=2 | 1:3,4 0:1,2", "frag 0 4 1 3 w=3 | 2:5 0: 1:1,2,3,4", "frag 100 10 3 4 w=2 | 0:1,2 1:3", "frag 5 10 3 4 w=2 | ", "frag 5 10 9 2 w=1 | 0:5",
+		"frag 3 7 0 5 w=4 | 0: 1: 2:", "merge 2 | 1:3,4 0:9 2:5", "merge 1 | 0:1,2,3", "merge 3 | ", "merge 2 | 1:3,4 0:", "merge 2 | 0:1 1:2 2:3 3:4",
+		"load | 1:3,4 0:9", "load | ", "load | 0: 1:", "count | 1:3,4 0:9 2:", "count | ", "complete | 1:3,4 0:9", "complete | ", "complete | 0: 1:",
+		"limitmem | 1:3,4 0:9 2:", "limitmem | ", "speed | 1:3,4 0: 2:5", "speed | ", "tee | 1:3 0:4,5 2:", "tee | ",
+		"pairedwith 2 | 0:1,2,3 | 1:6 0:4,5", "pairedwith 3 | 0: | ", "pairedwith 1 |  | ",
+		"pipe w=2 worker,rebatch:3,iworker:3:c,filteron:2 | 1:3,4,7 0:9,6 2:5", "pipe w=3 sort,filterempty,limitmem | 2: 0:1 1:", "pipe w=2 filteron:1,worker,rebatch:2,sort | ",
+		"pipe w=4 iworker:0:c,filterempty,rebatch:2 | 0:1,2 1:3", "pipe w=2 iworker:5:m,iworker:2:c,rebatch:7 | 1: 0:1,2,3 2:4",
+		// outside the order contract: a missing number, a number pushed twice (what the code does is an explicit outcome)
+		"sort | 0:1 2:3 3:4", "sort | 1:2 2:3", "sort | 0:1 1:2 1:3 2:4", "sort | 1:2 1:3 0:1 2:4", "sort | 0:1 0:2 1:3", "rebatch 2 | 0:1,2,3 2:4,5", "rebatch 2 | 1:9 0:1,2,3 1:4,5",
+		"filterempty | 0:1 2:3", "divide 2 | 0:1,2,3 2:6,9", "distribute 2 | 0:1,2,3 0:4,5", "complete | 0:1 2:3",
+	} {
+		emit(c)
+	}
+	// record-to-slice adapters: the growth of the output slice (one record of fan-out >= 3 in a batch of 1,
+	// a short last batch with a large fan-out, fan-out 0, failing records with and without breakOnError)
+	for _, c := range []string{
+		"adapt w=1 boe=0 3,c,0 | 0:1", "adapt w=1 boe=0 0,c,0 | 0:", "adapt w=1 boe=0 5,c,0 | 0:", "adapt w=1 boe=0 0,c,0 | 0:1,2,3",
+		"adapt w=1 boe=0 20,c,0 | 0:1", "adapt w=1 boe=0 9,m,0 | 0:1,2,3,4,5", "adapt w=1 boe=0 2,c,3 | 0:1,2,3,4,5,6", "adapt w=1 boe=1 2,c,3 | 0:1,2,3",
+		"adapt w=1 boe=1 2,c,3 | 0:1,3,4", "adaptcond w=1 boe=0 4,c,0 | 0:1,2,3,4,5,6", "adaptcond w=1 boe=1 4,c,2 | 0:1,2,4,5", "adaptcond w=1 boe=1 4,c,2 | 0:1,2,3,4,5",
+		"iworker w=2 boe=0 7,c,0 | 0:1 1:2 2:3 3:4 4:5 5:6", "iworker w=1 boe=0 9,c,0 | 0:1,2,3,4 1:5", "iworker w=3 boe=0 3,c,0 | 2:3 0:1 1:2",
+		"iworker w=8 boe=0 20,m,0 | 1:3,4 0:1,2 2: 3:5", "iworker w=2 boe=0 2,c,3 | 0:1,2 1:3,4,5", "iworker w=2 boe=1 2,c,3 | 0:1,2 1:3,4,5", "iworker w=2 boe=1 2,c,3 | 0:1 1:3,4",
+		"icond w=2 boe=0 5,c,0 | 0:1,2,3 1:6 2:7", "icond w=2 boe=1 5,c,3 | 0:1,2,3 1:6 2:7", "icond w=2 boe=1 5,c,4 | 0:1,2,3 1:6 2:7",
+		"islice w=4 boe=0 11,c,0 | 0:1 1:2,3", "islice w=2 boe=1 3,c,2 | 0:1 1:2,3", "islice w=2 boe=0 3,c,2 | 0:1 1:2,3",
+		"chain w=2 boe=0 1,c,0 3,c,0 | 0:1,2,3", "chain w=2 boe=0 2,c,0 7,c,0 | 1:2 0:1", "chain w=1 boe=0 3,m,0 4,m,5 2,c,0 | 0:1,2,3,4 1:5,6",
+		"chain w=2 boe=1 2,c,0 3,c,2 | 0:1,2 1:3", "chain w=2 boe=1 2,c,2 3,c,0 | 0:1,2 1:3", "chain w=2 boe=0 0,c,0 3,c,0 | 0:1,2", "chain w=3 boe=0 4,c,0 | 0:1,2",
+	} {
+		emit(c)
+	}
+	{
+		// every fan-out 0..20 x batch of 1..maxb records through the adapter alone, and through MakeIWorker /
+		// ChainWorkers with 1..8 goroutines on a stream of batches of exactly that size
+		maxb := 4
+		if tier == "thorough" {
+			maxb = 12
+		}
+		ids := func(first, n int) string {
+			v := make([]int, n)
+			for i := range v {
+				v[i] = first + i
+			}
+			return c03ShowIds(v)
+		}
+		for fan := 0; fan <= 20; fan++ {
+			for bs := 1; bs <= maxb; bs++ {
+				emit(fmt.Sprintf("adapt w=1 boe=0 %d,c,0 | 0:%s", fan, ids(1, bs)))
+				emit(fmt.Sprintf("adaptcond w=1 boe=0 %d,c,0 | 0:%s", fan, ids(1, 3*bs)))
+				nb := 1 + (fan+bs)%4
+				var parts []string
+				for k := nb - 1; k >= 0; k-- {
+					parts = append(parts, fmt.Sprintf("%d:%s", k, ids(1+k*bs, bs)))
+				}
+				w := 1 + (fan*maxb+bs)%8
+				switch (fan + bs) % 3 {
+				case 0:
+					emit(fmt.Sprintf("iworker w=%d boe=0 %d,c,0 | %s", w, fan, strings.Join(parts, " ")))
+				case 1:
+					emit(fmt.Sprintf("chain w=%d boe=0 1,c,0 %d,c,0 | %s", w, fan, strings.Join(parts, " ")))
+				case 2:
+					emit(fmt.Sprintf("icond w=%d boe=0 %d,c,0 | %s", w, fan, strings.Join(parts, " ")))
+				}
+				if tier == "thorough" {
+					emit(fmt.Sprintf("iworker w=%d boe=0 %d,m,0 | %s", 1+(w+3)%8, fan, strings.Join(parts, " ")))
+					emit(fmt.Sprintf("chain w=%d boe=0 2,c,0 %d,m,0 | %s", 1+(w+5)%8, fan, strings.Join(parts, " ")))
+					emit(fmt.Sprintf("islice w=%d boe=0 %d,c,0 | %s", 1+(w+1)%8, fan, strings.Join(parts, " ")))
+				}
+			}
+		}
 	}
 	// stress: thousands of one-record batches in flight between 8..16 workers (a worker that looks at a
 	// batch another worker has just taken shows up as a lost / duplicated batch)
@@ -223,9 +517,9 @@ func (c03) Gen(rng *rand.Rand, tier string, emit func(string)) {
 			rec(0)
 		}
 	}
-	n := 600
+	n := 1300
 	if tier == "thorough" {
-		n = 4000
+		n = 8000
 	}
 	for i := 0; i < n; i++ {
 		nrec := rng.Intn(40)
@@ -235,7 +529,131 @@ func (c03) Gen(rng *rand.Rand, tier string, emit func(string)) {
 		}
 		st := c03Shuffle(rng, c03Partition(rng, 1, nrec, nb))
 		size := 1 + rng.Intn(5)
-		switch rng.Intn(12) {
+		wspec := func(maxk int) string {
+			mode := "c"
+			if rng.Intn(2) == 0 {
+				mode = "m"
+			}
+			e := 0
+			if rng.Intn(4) == 0 {
+				e = 2 + rng.Intn(5)
+			}
+			return fmt.Sprintf("%d,%s,%d", rng.Intn(maxk+1), mode, e)
+		}
+		// small batches (0..4 records) for the worker-stage ops
+		wstream := func() string {
+			nb := 1 + rng.Intn(6)
+			var parts []string
+			first := 1
+			for k := 0; k < nb; k++ {
+				m := rng.Intn(5)
+				if rng.Intn(3) == 0 {
+					m = 1
+				}
+				v := make([]int, m)
+				for i := range v {
+					v[i] = first + i
+				}
+				first += m
+				parts = append(parts, fmt.Sprintf("%d:%s", k, c03ShowIds(v)))
+			}
+			rng.Shuffle(len(parts), func(i, j int) { parts[i], parts[j] = parts[j], parts[i] })
+			return strings.Join(parts, " ")
+		}
+		// damage outside the order contract: drop one batch (gap) or renumber one batch as another (duplicate)
+		damage := func(bs []c03Batch, dupOK bool) []c03Batch {
+			if len(bs) < 2 || rng.Intn(8) != 0 {
+				return bs
+			}
+			if dupOK && rng.Intn(2) == 0 {
+				out := append([]c03Batch{}, bs...)
+				i, j := rng.Intn(len(out)), rng.Intn(len(out))
+				if i != j {
+					out[i].order = out[j].order
+				}
+				return out
+			}
+			i := rng.Intn(len(bs))
+			return append(append([]c03Batch{}, bs[:i]...), bs[i+1:]...)
+		}
+		pipeStages := func() string {
+			ns := 3 + rng.Intn(2)
+			var st []string
+			for k := 0; k < ns; k++ {
+				switch rng.Intn(7) {
+				case 0:
+					st = append(st, "sort")
+				case 1:
+					st = append(st, "filterempty")
+				case 2:
+					st = append(st, "limitmem")
+				case 3:
+					st = append(st, "worker")
+				case 4:
+					st = append(st, fmt.Sprintf("rebatch:%d", 1+rng.Intn(5)))
+				case 5:
+					st = append(st, fmt.Sprintf("filteron:%d", 1+rng.Intn(5)))
+				case 6:
+					st = append(st, fmt.Sprintf("iworker:%d:%s", rng.Intn(6), []string{"c", "m"}[rng.Intn(2)]))
+				}
+			}
+			return strings.Join(st, ",")
+		}
+		switch rng.Intn(27) {
+		case 18:
+			length := 1 + rng.Intn(15)
+			emit(fmt.Sprintf("frag %d %d %d %d w=%d | %s", rng.Intn(20), length, rng.Intn(length), size, 1+rng.Intn(4), c03Show(st)))
+		case 19:
+			var ne []c03Batch
+			for _, b := range st {
+				if len(b.ids) > 0 || rng.Intn(10) == 0 {
+					ne = append(ne, b)
+				}
+			}
+			emit(fmt.Sprintf("merge %d | %s", size, c03Show(ne)))
+		case 20:
+			emit([]string{"load", "count", "complete", "limitmem", "speed", "tee"}[rng.Intn(6)] + " | " + c03Show(st))
+		case 21:
+			nb2 := rng.Intn(7)
+			if nrec > 0 && nb2 == 0 {
+				nb2 = 1
+			}
+			if nb == 0 {
+				nb2 = 0
+			}
+			st2 := c03Shuffle(rng, c03Partition(rng, 101, nrec, nb2))
+			emit(fmt.Sprintf("pairedwith %d | %s | %s", size, c03Show(st), c03Show(st2)))
+		case 22, 23, 24, 25, 26:
+			emit(fmt.Sprintf("pipe w=%d %s | %s", 1+rng.Intn(8), pipeStages(), c03Show(st)))
+		case 12:
+			emit(fmt.Sprintf("iworker w=%d boe=%d %s | %s", 1+rng.Intn(8), rng.Intn(2), wspec(20), wstream()))
+		case 13:
+			emit(fmt.Sprintf("icond w=%d boe=%d %s | %s", 1+rng.Intn(8), rng.Intn(2), wspec(20), wstream()))
+		case 14:
+			emit(fmt.Sprintf("islice w=%d boe=%d %s | %s", 1+rng.Intn(8), rng.Intn(2), wspec(20), wstream()))
+		case 15, 16:
+			ns := 2 + rng.Intn(2)
+			big := rng.Intn(ns)
+			var sp []string
+			for k := 0; k < ns; k++ {
+				if k == big {
+					sp = append(sp, wspec(20))
+				} else {
+					sp = append(sp, wspec(4))
+				}
+			}
+			emit(fmt.Sprintf("chain w=%d boe=%d %s | %s", 1+rng.Intn(8), rng.Intn(2), strings.Join(sp, " "), wstream()))
+		case 17:
+			op := "adapt"
+			if rng.Intn(2) == 0 {
+				op = "adaptcond"
+			}
+			m := rng.Intn(9)
+			v := make([]int, m)
+			for i := range v {
+				v[i] = 1 + i + rng.Intn(3)*i
+			}
+			emit(fmt.Sprintf("%s w=1 boe=%d %s | 0:%s", op, rng.Intn(2), wspec(20), c03ShowIds(v)))
 		case 11:
 			emit(fmt.Sprintf("batchover %d | %s", size, c03Show(c03Partition(rng, 1, nrec, 1))))
 		case 0:
@@ -244,9 +662,9 @@ func (c03) Gen(rng *rand.Rand, tier string, emit func(string)) {
 			}
 			emit("sort | " + c03Show(st))
 		case 1:
-			emit(fmt.Sprintf("rebatch %d | %s", size, c03Show(st)))
+			emit(fmt.Sprintf("rebatch %d | %s", size, c03Show(damage(st, true))))
 		case 2:
-			emit("filterempty | " + c03Show(st))
+			emit("filterempty | " + c03Show(damage(st, true)))
 		case 3:
 			ns := 1 + rng.Intn(3)
 			parts := []string{c03Show(st)}
@@ -261,13 +679,13 @@ func (c03) Gen(rng *rand.Rand, tier string, emit func(string)) {
 			}
 			emit("concat | " + strings.Join(parts, " | "))
 		case 4:
-			emit(fmt.Sprintf("divide %d | %s", size, c03Show(st)))
+			emit(fmt.Sprintf("divide %d | %s", size, c03Show(damage(st, true))))
 		case 5:
-			emit(fmt.Sprintf("filteron %d w=%d | %s", size, 1+rng.Intn(4), c03Show(st)))
+			emit(fmt.Sprintf("filteron %d w=%d | %s", size, 1+rng.Intn(4), c03Show(damage(st, false))))
 		case 6:
 			emit(fmt.Sprintf("worker w=%d | %s", 1+rng.Intn(4), c03Show(st)))
 		case 7:
-			emit(fmt.Sprintf("distribute %d | %s", size, c03Show(st)))
+			emit(fmt.Sprintf("distribute %d | %s", size, c03Show(damage(st, true))))
 		case 8:
 			nb2 := rng.Intn(7)
 			if nrec > 0 && nb2 == 0 {
@@ -309,6 +727,41 @@ func c03Flat(bs []c03Batch) []int {
 		r = append(r, b.ids...)
 	}
 	return r
+}
+
+func c03FanClass(k int) string {
+	switch {
+	case k == 0:
+		return "0"
+	case k == 1:
+		return "1"
+	case k == 2:
+		return "2"
+	case k <= 4:
+		return "3-4"
+	case k <= 9:
+		return "5-9"
+	}
+	return "10+"
+}
+
+func c03FirstDiff(a, b []int) int {
+	for i := 0; i < len(a) && i < len(b); i++ {
+		if a[i] != b[i] {
+			return i
+		}
+	}
+	if len(a) < len(b) {
+		return len(a)
+	}
+	return len(b)
+}
+
+func c03Head(a []int) []int {
+	if len(a) > 12 {
+		return a[:12]
+	}
+	return a
 }
 
 func eqInts(a, b []int) bool {
@@ -386,6 +839,7 @@ func (c03) Exec(c string) (string, []Fail) {
 			fail("records", "records delivered %v, expected %v", got, want)
 		}
 	}
+	var expectFatal, notExecuted atomic.Bool
 	res := guardT(5*time.Second, func() string {
 		switch {
 		case op == "sort" && len(streams) == 1:
@@ -474,6 +928,328 @@ func (c03) Exec(c string) (string, []Fail) {
 			}
 			checkOut(out, want, false)
 			sort.SliceStable(out, func(i, j int) bool { return out[i].order < out[j].order })
+			return c03Show(out)
+		case (op == "iworker" || op == "icond" || op == "islice" || op == "chain") && len(streams) == 1 && len(head) >= 4:
+			nw, boe := c03FlagArg("w=", head[1]), c03FlagArg("boe=", head[2])
+			if nw <= 0 || boe < 0 || boe > 1 || (op != "chain" && len(head) != 4) {
+				return "bad-op"
+			}
+			var specs []c03WSpec
+			for _, h := range head[3:] {
+				sp, ok := c03ParseWSpec(h)
+				if !ok {
+					return "bad-op"
+				}
+				specs = append(specs, sp)
+				stat(fmt.Sprintf("%s.fan-class:%s", op, c03FanClass(sp.k)))
+			}
+			stat(fmt.Sprintf("%s.workers:%d", op, nw))
+			sel := func(id int) bool { return true }
+			if op == "icond" {
+				sel = func(id int) bool { return id%3 == 0 }
+			}
+			// reference first (before any goroutine of the code under test exists)
+			var selIds []int
+			for _, id := range c03Flat(streams[0]) {
+				if sel(id) {
+					selIds = append(selIds, id)
+				}
+			}
+			want, failed := c03RefWorkers(specs, selIds)
+			if failed && boe == 1 {
+				stat(op + ".expect-fatal")
+				expectFatal.Store(true)
+			}
+			src := c03Iter(streams[0])
+			var it obiiter.IBioSequence
+			switch op {
+			case "iworker":
+				it = src.MakeIWorker(specs[0].worker(), boe == 1, nw)
+			case "icond":
+				it = src.MakeIConditionalWorker(c03Pred, specs[0].worker(), boe == 1, nw)
+			case "islice":
+				w := specs[0].worker()
+				sw := func(sl obiseq.BioSequenceSlice) (obiseq.BioSequenceSlice, error) {
+					out := obiseq.MakeBioSequenceSlice()
+					for _, s := range sl {
+						r, err := w(s)
+						if err != nil {
+							if boe == 1 {
+								return obiseq.BioSequenceSlice{}, err
+							}
+							continue
+						}
+						out = append(out, r...)
+					}
+					return out, nil
+				}
+				it = src.MakeISliceWorker(sw, boe == 1, nw)
+			case "chain":
+				w := specs[0].worker()
+				for _, sp := range specs[1:] {
+					w = w.ChainWorkers(sp.worker())
+				}
+				it = src.MakeIWorker(w, boe == 1, nw)
+			}
+			out := c03Drain(it)
+			c03SortByOrder(out)
+			// oracle: every batch keeps its number; the records are those the naive reference yields
+			if failed && boe == 1 {
+				// the command must stop (log.Fatalf): observed as the outcome "fatal" by guardT
+				return c03Show(out)
+			}
+			if inContract {
+				var inOrders, outOrders []int
+				for _, b := range streams[0] {
+					inOrders = append(inOrders, b.order)
+				}
+				for _, b := range out {
+					outOrders = append(outOrders, b.order)
+				}
+				sort.Ints(inOrders)
+				if !eqInts(inOrders, outOrders) {
+					fail("numbering", "batch numbers out %v, in %v", outOrders, inOrders)
+				}
+				if got := c03Flat(out); !eqInts(got, want) {
+					fail("records", "%d records delivered, %d expected (first difference at rank %d): got %v, expected %v",
+						len(got), len(want), c03FirstDiff(got, want), c03Head(got), c03Head(want))
+				}
+				// per batch too: a record must not move to another batch
+				for _, b := range out {
+					var bsel []int
+					for _, ib := range streams[0] {
+						if ib.order == b.order {
+							for _, id := range ib.ids {
+								if sel(id) {
+									bsel = append(bsel, id)
+								}
+							}
+						}
+					}
+					bw, _ := c03RefWorkers(specs, bsel)
+					if !eqInts(b.ids, bw) {
+						fail("batch-records", "batch %d holds %d records, %d expected", b.order, len(b.ids), len(bw))
+						break
+					}
+				}
+			}
+			return c03Show(out)
+		case (op == "adapt" || op == "adaptcond") && len(streams) == 1 && len(streams[0]) == 1 && len(head) == 4:
+			boe := c03FlagArg("boe=", head[2])
+			sp, ok := c03ParseWSpec(head[3])
+			if c03FlagArg("w=", head[1]) < 0 || boe < 0 || boe > 1 || !ok {
+				return "bad-op"
+			}
+			stat(fmt.Sprintf("%s.fan-class:%s", op, c03FanClass(sp.k)))
+			in := obiseq.MakeBioSequenceSlice()
+			var selIds []int
+			for _, id := range streams[0][0].ids {
+				in = append(in, c03Seq(id))
+				if op == "adapt" || id%3 == 0 {
+					selIds = append(selIds, id)
+				}
+			}
+			var sw obiseq.SeqSliceWorker
+			if op == "adapt" {
+				sw = obiseq.SeqToSliceWorker(sp.worker(), boe == 1)
+			} else {
+				sw = obiseq.SeqToSliceConditionalWorker(c03Pred, sp.worker(), boe == 1)
+			}
+			res, err := sw(in)
+			want, failed := c03RefWorkers([]c03WSpec{sp}, selIds)
+			if err != nil {
+				if !(failed && boe == 1) {
+					fail("error", "the adapter returned an error although no record had to stop the batch: %v", err)
+				}
+				return "err"
+			}
+			if failed && boe == 1 {
+				fail("error", "a record failed under breakOnError but the adapter returned no error")
+			}
+			var got []int
+			for _, r := range res {
+				if r == nil {
+					fail("nil-record", "a nil record was returned")
+					return "panic"
+				}
+				got = append(got, c03Id(r))
+			}
+			if !eqInts(got, want) {
+				fail("records", "%d records returned, %d expected (first difference at rank %d): got %v, expected %v",
+					len(got), len(want), c03FirstDiff(got, want), c03Head(got), c03Head(want))
+			}
+			return "ok " + c03ShowIds(got)
+		case op == "frag" && len(streams) == 1 && len(head) == 6:
+			m, l, o, sz, nw := intArg(1), intArg(2), intArg(3), intArg(4), intArg(5)
+			if m < 0 || l <= 0 || o < 0 || l <= o || sz <= 0 || nw <= 0 {
+				return "bad-op"
+			}
+			out := c03DrainWith(obiiter.IFragments(m, l, o, sz, nw)(c03IterWith(streams[0], c03FragSeq)), c03FragId)
+			var want []int
+			for _, id := range c03Flat(streams[0]) {
+				want = append(want, c03RefFrag(id, m, l, o)...)
+			}
+			checkOut(out, want, true)
+			return c03Show(out)
+		case op == "merge" && len(streams) == 1 && intArg(1) > 0:
+			for _, b := range streams[0] {
+				if len(b.ids) == 0 {
+					// BioSequenceSlice.Merge indexes sequences[0] in a goroutine of the library: the process would die.
+					// Outcome recorded from reading the code, not executed.
+					stat("merge.empty-group:panic(not executed)")
+					notExecuted.Store(true)
+					return "panic"
+				}
+			}
+			it := c03Iter(streams[0]).IMergeSequenceBatch("NA", obiseq.StatsOnDescriptions{}, intArg(1))
+			var out []c03Batch
+			reads := 0
+			for it.Next() {
+				b := it.Get()
+				cb := c03Batch{order: b.Order()}
+				for _, s := range b.Slice() {
+					cb.ids = append(cb.ids, c03Id(s))
+					reads += s.Count()
+				}
+				out = append(out, cb)
+			}
+			var want []int
+			total := 0
+			for _, b := range streams[0] { // groups are taken in arrival order
+				want = append(want, b.ids[0])
+				total += len(b.ids)
+			}
+			if !c03Contract(out) {
+				fail("numbering", "output batches are not numbered 0..n-1: %s", c03Show(out))
+			}
+			var got []int
+			for i, b := range out {
+				got = append(got, b.ids...)
+				if b.order != i {
+					fail("delivery-order", "batch delivered at rank %d has number %d", i, b.order)
+				}
+			}
+			if !eqInts(got, want) {
+				fail("records", "merged records %v, expected one per group in arrival order %v", got, want)
+			}
+			if reads != total {
+				fail("reads", "merged records count for %d reads, %d records went in", reads, total)
+			}
+			return c03Show(out)
+		case op == "load" && len(streams) == 1:
+			_, sl := c03Iter(streams[0]).Load()
+			var got, want []int
+			for _, r := range sl {
+				got = append(got, c03Id(r))
+			}
+			for _, b := range streams[0] {
+				want = append(want, b.ids...)
+			}
+			if !eqInts(got, want) {
+				fail("records", "loaded %v, expected (arrival order) %v", got, want)
+			}
+			return c03ShowIds(got)
+		case op == "count" && len(streams) == 1:
+			n, _, _ := c03Iter(streams[0]).Count(false)
+			if n != len(c03Flat(streams[0])) {
+				fail("records", "counted %d records, %d pushed", n, len(c03Flat(streams[0])))
+			}
+			return strconv.Itoa(n)
+		case op == "complete" && len(streams) == 1:
+			out := c03Drain(c03Iter(streams[0]).SortBatches().CompleteFileIterator())
+			checkOut(out, c03Flat(streams[0]), true)
+			if inContract && (len(out) > 1 || (len(out) == 1 && len(out[0].ids) == 0)) {
+				fail("single-batch", "expected one non-empty batch or none: %s", c03Show(out))
+			}
+			return c03Show(out)
+		case (op == "limitmem" || op == "speed") && len(streams) == 1:
+			var it obiiter.IBioSequence
+			if op == "limitmem" {
+				it = c03Iter(streams[0]).LimitMemory(1.0)
+			} else {
+				it = c03Iter(streams[0]).Speed("verif")
+			}
+			out := c03Drain(it)
+			if c03Show(out) != c03Show(streams[0]) {
+				fail("identity", "a pass-through stage changed the stream: %s", c03Show(out))
+			}
+			return c03Show(out)
+		case op == "tee" && len(streams) == 1:
+			ai, bi := c03Iter(streams[0]).CopyTee()
+			var a, b []c03Batch
+			var wg sync.WaitGroup
+			wg.Add(2)
+			go func() { a = c03Drain(ai); wg.Done() }()
+			go func() { b = c03Drain(bi); wg.Done() }()
+			wg.Wait()
+			if c03Show(a) != c03Show(streams[0]) || c03Show(b) != c03Show(streams[0]) {
+				fail("identity", "CopyTee outputs differ from the input: %s / %s", c03Show(a), c03Show(b))
+			}
+			return "A " + c03Show(a) + " B " + c03Show(b)
+		case op == "pairedwith" && len(streams) == 2 && intArg(1) > 0:
+			obioptions.SetBatchSize(intArg(1))
+			paired := c03Iter(streams[0]).PairTo(c03Iter(streams[1]))
+			// forward batches are collected on the way (their mates are read through PairedWith on the batch),
+			// then the same batches are pushed through the iterator-level PairedWith()
+			var fwd []c03Batch
+			relay := obiiter.MakeIBioSequence()
+			relay.MarkAsPaired()
+			relay.Add(1)
+			go func() {
+				for paired.Next() {
+					b := paired.Get()
+					cb := c03Batch{order: b.Order()}
+					for _, s := range b.Slice() {
+						cb.ids = append(cb.ids, c03Id(s))
+					}
+					fwd = append(fwd, cb)
+					relay.Push(b)
+				}
+				relay.Done()
+			}()
+			go relay.WaitAndClose()
+			rev := c03Drain(relay.PairedWith())
+			if inContract {
+				if len(fwd) != len(rev) {
+					fail("mates", "%d forward batches, %d reverse batches", len(fwd), len(rev))
+				} else {
+					for i := range fwd {
+						if fwd[i].order != rev[i].order || len(fwd[i].ids) != len(rev[i].ids) || fwd[i].order != i {
+							fail("mates", "batch at rank %d: forward #%d with %d records, reverse #%d with %d records",
+								i, fwd[i].order, len(fwd[i].ids), rev[i].order, len(rev[i].ids))
+							break
+						}
+					}
+				}
+				if !eqInts(c03Flat(fwd), c03Flat(streams[0])) || !eqInts(c03Flat(rev), c03Flat(streams[1])) {
+					fail("mates", "forward %v / reverse %v do not list the two inputs in order", c03Flat(fwd), c03Flat(rev))
+				}
+			}
+			return c03Show(rev)
+		case op == "pipe" && len(streams) == 1 && len(head) == 3:
+			nw := c03FlagArg("w=", head[1])
+			if nw <= 0 {
+				return "bad-op"
+			}
+			stages := strings.Split(head[2], ",")
+			stat(fmt.Sprintf("pipe.stages:%d", len(stages)))
+			if len(stages) == 1 && strings.HasPrefix(stages[0], "frag:") {
+				return "bad-op"
+			}
+			it := c03Iter(streams[0])
+			flat := c03Flat(streams[0])
+			for _, tok := range stages {
+				var ok bool
+				it, flat, ok = c03PipeStage(tok, nw, it, flat)
+				if !ok {
+					go it.Consume()
+					return "bad-op"
+				}
+				stat("pipe.stage:" + strings.Split(tok, ":")[0])
+			}
+			out := c03Drain(it)
+			c03SortByOrder(out)
+			checkOut(out, flat, false)
 			return c03Show(out)
 		case op == "distribute" && len(streams) == 1 && intArg(1) > 0:
 			cls := &obiseq.BioSequenceClassifier{Code: func(s *obiseq.BioSequence) int { return c03Id(s) % 4 }}
@@ -616,6 +1392,45 @@ func (c03) Exec(c string) (string, []Fail) {
 		}
 		return "bad-op"
 	})
+	if !inContract && len(streams) == 1 {
+		// explicit outcome of an input outside the order contract (missing / repeated batch number)
+		kind := "gap"
+		seen := map[int]bool{}
+		for _, b := range streams[0] {
+			if seen[b.order] {
+				kind = "duplicate"
+			}
+			seen[b.order] = true
+		}
+		switch res {
+		case "hang", "panic", "fatal":
+			stat("outside-contract." + kind + ":" + res)
+		default:
+			in, out := len(c03Flat(streams[0])), 0
+			for _, w := range strings.Fields(res) {
+				if k := strings.Index(w, ":"); k >= 0 && len(w) > k+1 {
+					out += strings.Count(w[k+1:], ",") + 1
+				}
+			}
+			if op != "sort" && op != "rebatch" && op != "filterempty" && op != "complete" {
+				stat("outside-contract." + kind + ":completed")
+			} else if out < in {
+				stat("outside-contract." + kind + ":records-silently-dropped")
+			} else {
+				stat("outside-contract." + kind + ":all-delivered")
+			}
+		}
+	}
+	if notExecuted.Load() {
+		return res, nil
+	}
+	if expectFatal.Load() {
+		// a record failed under breakOnError: the stage must stop the command (log.Fatalf)
+		if res == "fatal" {
+			return res, nil
+		}
+		return res, []Fail{{Sig: op + ".no-fatal", Text: "a record failed under breakOnError but the stage ended with: " + res}}
+	}
 	if res == "hang" || res == "panic" || res == "fatal" {
 		fails = []Fail{{Sig: op + ".outcome", Text: "combinator did not complete normally: " + res}}
 	}
